@@ -1,5 +1,5 @@
 """C14 Fault containment and clean shutdown."""
-from vk import common, sysrun
+from vk import common, sysrun, remote
 from vk.kernels import c14 as K
 
 
@@ -10,7 +10,12 @@ def run(rep, tier, seed, args):
                 'including replies delivered during shutdown; non-trivial = the fault actually fired on the path')
     rep.bounds = {'simulators': '2 (thorough 3)', 'steps': 'K=2', 'fault kinds': ['exception in the handler', 'ConnectionResetError from send', 'IncompleteReadError from send'],
                   'stages': 'failure instead of the reply (after the latency) / at send time',
-                  'outside': 'process death, sockets, the reader task of RemoteProxy, wall-clock promptness (decided as: finitely many deliveries)'}
-    rep.assumptions = list(sysrun.STUBS) + ['a closed connection is modelled by the exceptions a RemoteProxy.send() raises in that case (asyncio.IncompleteReadError from Channel.send, ConnectionResetError from the stream writer)',
+                  'remote jobs': 'in-memory remote transport (vk.remote): handler failure (failure reply), process exit when a request arrives / after handling it '
+                                 '(connection closes); all simulator->mosaik message orders; RemoteProxy.stop() timeout racing with the reaction of the simulator; '
+                                 'observed: error raised or logged, finalize at the simulator side, process left behind, connection closed by mosaik, pending tasks',
+                  'outside': 'operating-system processes and sockets (the remote jobs model a process exit as its connection closing, no spontaneous '
+                             'ConnectionResetError), the cmd starter (subprocess.Popen), wall-clock promptness (decided as: finitely many deliveries / '
+                             'within one virtual second)'}
+    rep.assumptions = list(sysrun.STUBS) + list(remote.STUBS) + ['a closed connection is modelled by the exceptions a RemoteProxy.send() raises in that case (asyncio.IncompleteReadError from Channel.send, ConnectionResetError from the stream writer)',
                                            'pending work = asyncio tasks of the loop that are not done when World.shutdown() closes it']
     rep.add_jobs(common.run_jobs(jobs))
